@@ -355,6 +355,9 @@ func main() {
 		run.Note("no model driver: oracles only")
 	}
 	for _, f := range run.CorpusFiles() {
+		if pa.enough() {
+			break
+		}
 		var c Case
 		if hx.LoadReplayCase(f, &c) == nil && (c.Query != "" || len(c.Tree) > 0) {
 			pa.record(c, pa.exec(&c), false)
